@@ -14,6 +14,8 @@ uf = Intrinsic("uf")                  # uf('name', arity) -> callable uninterpre
 expect_raises = Intrinsic("expect_raises")  # expect_raises(Exc, callable, *args) -> bool/raises obligation
 note = Intrinsic("note")
 use_lemma = Intrinsic("use_lemma")  # use_lemma("sum_const", array, c, n): instance of a lemma proved in this run
+cnt = Intrinsic("cnt")              # cnt(int_array, k, v) = #{j < k | a[j] == v}
+count_def = Intrinsic("count_def")  # definitional unfolding of cnt at position k (for loop `unfold` hints)
 ssum = Intrinsic("ssum")            # ssum(n, lambda i: term)
 array_of = Intrinsic("array_of")
 pointwise = Intrinsic("pointwise")  # pointwise(n, lambda i: fact, id=..): proves fact at a generic index, then assumes it for all i    # array_of(n, lambda i: term)
